@@ -40,7 +40,8 @@ def model_attrs(sparse=False, feat_rows=False, curated=True, no_features=False, 
         'wmi': wmi_, 'wm': wm_,
         'channel_positions': Arr((Chan, XY), UM), 'channel_shanks': Arr((Chan,), Ix(Shank)),
         'channel_probes': Arr((Chan,), Ix(Probe)), 'channel_mapping': Arr((Chan,), Ix(RawChan)),
-        'n_closest_channels': Q(), 'amplitude_threshold': Q(), 'template_scaling': Q(),
+        'n_closest_channels': Q(), 'amplitude_threshold': Q(), 'template_scaling': Q((), {'display-scale'}),        # a DISPLAY option: values in physical units must not carry it
+
         'spike_templates': st_arr, 'spike_clusters': sc_arr,
         'spike_times': Arr((Spike,), SEC), 'spike_samples': Arr((Spike,), SAMPQ),
         'amplitudes': Arr((Spike,), KA), 'sample_rate': RATE,
